@@ -13,6 +13,7 @@ From SU.Spec Require Import RunSpec.
 From SU.Proofs Require Import GlideExtraProofs.
 From SU.Proofs Require Import SharedProofs.
 From SU.Proofs Require Import GlideKillers.
+From SU.Proofs Require Import GlideTraceProofs.
 Open Scope R_scope.
 
 (** the pole installed for a time t with N = t * fs >= 100 samples (t <= 10 s) is the pole of
@@ -219,7 +220,7 @@ Theorem C14_first_set_time_pole : forall fs g0 t g',
   Rabs (pole (d_c (g_lpf g')) - p0) <= / 65536 * (1 - p0) + 4 * / 16777216.
 Proof. exact first_set_time_pole. Qed.
 
-(** end to end on the outputs of the model itself: new, set_time t, a step held for t (resp. t/10) seconds -> at least 99.6% (resp. 41%..54%) of the step, up to the filter resolution *)
+(** end to end on the outputs of the model itself: new, set_time t, a step held for t (resp. t/10) seconds -> at least 99.6% (resp. 41%..54%) of the step, up to the resolution of the SLOWEST setting of that sample rate (2 resolution (0.6/fs) B: 15% of B at 48 kHz; the sharp version with the setting in force is C14_first_glide_end_to_end_sharp below) *)
 Theorem C14_first_glide_end_to_end : forall fs g0 t hi B (n n10 : nat),
   glide_fs_ok fs -> glide_new fs = Some g0 -> glide_time_ok t ->
   100 <= R32 t * R32 fs ->
@@ -234,6 +235,157 @@ Theorem C14_first_glide_end_to_end : forall fs g0 t hi B (n n10 : nat),
     Rabs (R32 (last ys10 f_0) - R32 hi * s10) <= 2 * resolution (0.6 / R32 fs) * B /\
     0.996 <= s /\ 0.41 <= s10 <= 0.54.
 Proof. exact first_glide_end_to_end. Qed.
+
+(** the step response from an APPROXIMATELY settled level (the f32 output of a glide stalls slightly short of its target, so exact rest is never reached): the leftover delta decays with p^(n+1) *)
+Theorem C14_step_tracks_near_rest : forall d lo hi n kappa B delta,
+  good (d_c d) -> kappa <= speed (d_c d) -> / 100000 <= kappa ->
+  df1_bounded d B -> fin hi -> Rabs (R32 hi) <= B ->
+  bpow radix2 (-100) <= B -> B <= bpow radix2 64 ->
+  d_x1 d = lo -> Rabs (R32 (d_y1 d) - R32 lo) <= delta ->
+  let y := last (snd (run_const d hi (S n))) lo in
+  let p := pole (d_c d) in
+  Rabs (R32 y - (R32 lo + (R32 hi - R32 lo) * step_response p n))
+    <= Rmax 0 p ^ S n * delta + resolution kappa * B /\
+  (0 <= p ->
+   Rabs (R32 y - (R32 lo + (R32 hi - R32 lo) * step_response p n))
+    <= p ^ S n * delta + resolution kappa / 2 * B).
+Proof. exact step_tracks_near_rest. Qed.
+
+(** hence for every glide of every history, from any offset *)
+Theorem C14_trace_step_tracks : forall (fs : f32) (g0 : glide) (rlo rhi B : R), glide_fs_ok fs -> glide_new fs = Some g0 -> rlo <= 0 <= rhi -> (Rmax (- rlo) rhi = 0 \/ bpow radix2 (-100) <= Rmax (- rlo) rhi) -> (1 + resolution (0.6 / R32 fs)) * Rmax (- rlo) rhi <= B -> bpow radix2 (-100) <= B -> B <= bpow radix2 64 ->
+  forall ops (lo hi : f32) ts n,
+  Forall op_time_ok ops -> Forall (op_input_in rlo rhi) ops ->
+  fin lo -> rlo <= R32 lo <= rhi -> fin hi -> rlo <= R32 hi <= rhi ->
+  Forall glide_time_ok ts ->
+  exists g ys y0 ws,
+    glide_after g0 (ops ++ GProcess lo :: map GSetTime ts) = Some g /\
+    glide_outputs g0 ops = Some ys /\
+    glide_outputs g0 (ops ++ GProcess lo :: map GSetTime ts ++ repeat (GProcess hi) (S n))
+      = Some (ys ++ y0 :: ws) /\
+    length ws = S n /\
+    let c := d_c (g_lpf g) in
+    let p := pole c in
+    let ideal := R32 lo + (R32 hi - R32 lo) * step_response p n in
+    Rabs (R32 (last ws f_0) - ideal)
+      <= Rmax 0 p ^ S n * Rabs (R32 y0 - R32 lo) + resolution (speed c) * B /\
+    (0 <= p ->
+     Rabs (R32 (last ws f_0) - ideal)
+      <= p ^ S n * Rabs (R32 y0 - R32 lo) + resolution (speed c) / 2 * B).
+Proof. exact C14_trace_step_tracks. Qed.
+
+(** chained: settle on lo for m samples, then step to hi *)
+Theorem C14_second_glide : forall (fs : f32) (g0 : glide) (rlo rhi B : R), glide_fs_ok fs -> glide_new fs = Some g0 -> rlo <= 0 <= rhi -> (Rmax (- rlo) rhi = 0 \/ bpow radix2 (-100) <= Rmax (- rlo) rhi) -> (1 + resolution (0.6 / R32 fs)) * Rmax (- rlo) rhi <= B -> bpow radix2 (-100) <= B -> B <= bpow radix2 64 ->
+  forall ops (lo hi : f32) ts m n,
+  Forall op_time_ok ops -> Forall (op_input_in rlo rhi) ops ->
+  fin lo -> rlo <= R32 lo <= rhi -> fin hi -> rlo <= R32 hi <= rhi ->
+  Forall glide_time_ok ts ->
+  exists g ys y1 zs ws,
+    glide_after g0 (ops ++ GProcess lo :: map GSetTime ts) = Some g /\
+    glide_outputs g0 ops = Some ys /\
+    glide_outputs g0 (ops ++ GProcess lo :: map GSetTime ts
+                          ++ repeat (GProcess lo) m ++ repeat (GProcess hi) (S n))
+      = Some (ys ++ y1 :: zs ++ ws) /\
+    length zs = m /\ length ws = S n /\
+    let c := d_c (g_lpf g) in
+    let p := pole c in
+    let pm := Rmax 0 p in
+    let ideal := R32 lo + (R32 hi - R32 lo) * step_response p n in
+    let delta0 := pm ^ m * Rabs (R32 y1 - R32 lo) + resolution (speed c) * B in
+    Rabs (R32 (last zs y1) - R32 lo) <= delta0 /\
+    Rabs (R32 (last ws f_0) - ideal) <= pm ^ S n * delta0 + resolution (speed c) * B /\
+    (0 <= p ->
+     Rabs (R32 (last ws f_0) - ideal)
+       <= p ^ S n * (p ^ m * Rabs (R32 y1 - R32 lo) + resolution (speed c) / 2 * B)
+          + resolution (speed c) / 2 * B).
+Proof. exact second_glide. Qed.
+
+(** the speed of the coefficients of time t is at least 6/N (N = t fs samples per t), and their pole is non-negative *)
+Theorem C14_speed_of_time : forall fs ops g t c,
+  glide_fs_ok fs -> glide_run (glide_new fs) ops = Some g ->
+  glide_time_ok t -> 100 <= R32 t * R32 fs -> coeffs_for g t = Some c ->
+  good c /\ 6 / (R32 t * R32 fs) <= speed c /\ 0 <= pole c /\
+  / 100000 <= 6 / (R32 t * R32 fs).
+Proof. exact speed_of_time. Qed.
+
+(** the end-to-end theorem with the resolution of the setting in force: tolerance 8*2^-24 * N/6 * B instead of the worst case of the sample rate *)
+Theorem C14_first_glide_end_to_end_sharp : forall fs g0 t hi B (n n10 : nat),
+  glide_fs_ok fs -> glide_new fs = Some g0 -> glide_time_ok t ->
+  100 <= R32 t * R32 fs ->
+  fin hi -> Rabs (R32 hi) <= B -> bpow radix2 (-100) <= B -> B <= bpow radix2 64 ->
+  R32 t * R32 fs <= INR n < R32 t * R32 fs + 1 ->
+  R32 t * R32 fs / 10 <= INR n10 < R32 t * R32 fs / 10 + 1 ->
+  exists ys ys10 s s10,
+    glide_outputs g0 (GSetTime t :: repeat (GProcess hi) (S n)) = Some ys /\
+    glide_outputs g0 (GSetTime t :: repeat (GProcess hi) (S n10)) = Some ys10 /\
+    length ys = S n /\ length ys10 = S n10 /\
+    Rabs (R32 (last ys f_0) - R32 hi * s) <= resolution (6 / (R32 t * R32 fs)) / 2 * B /\
+    Rabs (R32 (last ys10 f_0) - R32 hi * s10) <= resolution (6 / (R32 t * R32 fs)) / 2 * B /\
+    0.996 <= s /\ 0.41 <= s10 <= 0.54.
+Proof. exact first_glide_end_to_end_sharp. Qed.
+
+(** end to end for any glide of any history: 99.6% at t, 41..54% at t/10, up to p^(n+1) |y0 - lo| + that tolerance *)
+Theorem C14_any_glide_end_to_end : forall (fs : f32) (g0 : glide) (rlo rhi B : R), glide_fs_ok fs -> glide_new fs = Some g0 -> rlo <= 0 <= rhi -> (Rmax (- rlo) rhi = 0 \/ bpow radix2 (-100) <= Rmax (- rlo) rhi) -> (1 + resolution (0.6 / R32 fs)) * Rmax (- rlo) rhi <= B -> bpow radix2 (-100) <= B -> B <= bpow radix2 64 ->
+  forall ops (lo hi : f32) ts g (n n10 : nat),
+  Forall op_time_ok ops -> Forall (op_input_in rlo rhi) ops ->
+  fin lo -> rlo <= R32 lo <= rhi -> fin hi -> rlo <= R32 hi <= rhi ->
+  Forall glide_time_ok ts ->
+  glide_after g0 (ops ++ GProcess lo :: map GSetTime ts) = Some g ->
+  let N := R32 (g_cached_t g) * R32 fs in
+  100 <= N -> N <= INR n < N + 1 -> N / 10 <= INR n10 < N / 10 + 1 ->
+  exists ys y0 ws ws10,
+    glide_outputs g0 ops = Some ys /\
+    glide_outputs g0 (ops ++ GProcess lo :: map GSetTime ts ++ repeat (GProcess hi) (S n))
+      = Some (ys ++ y0 :: ws) /\
+    glide_outputs g0 (ops ++ GProcess lo :: map GSetTime ts ++ repeat (GProcess hi) (S n10))
+      = Some (ys ++ y0 :: ws10) /\
+    length ws = S n /\ length ws10 = S n10 /\
+    let p := pole (d_c (g_lpf g)) in
+    let s := step_response p n in
+    let s10 := step_response p n10 in
+    glide_time_ok (g_cached_t g) /\ Some (d_c (g_lpf g)) = coeffs_for g (g_cached_t g) /\
+    0 <= p < 1 /\ 0.996 <= s /\ 0.41 <= s10 <= 0.54 /\
+    Rabs (R32 (last ws f_0) - (R32 lo + (R32 hi - R32 lo) * s))
+      <= p ^ S n * Rabs (R32 y0 - R32 lo) + resolution (6 / N) / 2 * B /\
+    Rabs (R32 (last ws10 f_0) - (R32 lo + (R32 hi - R32 lo) * s10))
+      <= p ^ S n10 * Rabs (R32 y0 - R32 lo) + resolution (6 / N) / 2 * B.
+Proof. exact any_glide_end_to_end. Qed.
+
+(** in the property's own figures whenever leftover + tolerance is at most 0.1% of the step *)
+Theorem C14_any_glide_percent : forall (fs : f32) (g0 : glide) (rlo rhi B : R), glide_fs_ok fs -> glide_new fs = Some g0 -> rlo <= 0 <= rhi -> (Rmax (- rlo) rhi = 0 \/ bpow radix2 (-100) <= Rmax (- rlo) rhi) -> (1 + resolution (0.6 / R32 fs)) * Rmax (- rlo) rhi <= B -> bpow radix2 (-100) <= B -> B <= bpow radix2 64 ->
+  forall ops (lo hi : f32) ts g (n n10 : nat),
+  Forall op_time_ok ops -> Forall (op_input_in rlo rhi) ops ->
+  fin lo -> rlo <= R32 lo <= rhi -> fin hi -> rlo <= R32 hi <= rhi ->
+  Forall glide_time_ok ts ->
+  glide_after g0 (ops ++ GProcess lo :: map GSetTime ts) = Some g ->
+  let N := R32 (g_cached_t g) * R32 fs in
+  100 <= N -> N <= INR n < N + 1 -> N / 10 <= INR n10 < N / 10 + 1 ->
+  R32 hi <> R32 lo ->
+  exists ys y0 ws ws10,
+    glide_outputs g0 ops = Some ys /\
+    glide_outputs g0 (ops ++ GProcess lo :: map GSetTime ts ++ repeat (GProcess hi) (S n))
+      = Some (ys ++ y0 :: ws) /\
+    glide_outputs g0 (ops ++ GProcess lo :: map GSetTime ts ++ repeat (GProcess hi) (S n10))
+      = Some (ys ++ y0 :: ws10) /\
+    length ws = S n /\ length ws10 = S n10 /\
+    (Rabs (R32 y0 - R32 lo) + resolution (6 / N) / 2 * B <= 0.001 * Rabs (R32 hi - R32 lo) ->
+     0.995 <= (R32 (last ws f_0) - R32 lo) / (R32 hi - R32 lo) /\
+     0.40 <= (R32 (last ws10 f_0) - R32 lo) / (R32 hi - R32 lo) <= 0.55).
+Proof. exact any_glide_percent. Qed.
+
+(** the property's own figures, unconditionally, for a first glide of up to 12582 samples per t (0.26 s at 48 kHz): at least 99.5% at t, 40%..55% at t/10.  Beyond that the f32 resolution bound exceeds the 0.1% margin *)
+Theorem C14_end_to_end_percent : forall fs g0 t hi (n n10 : nat),
+  glide_fs_ok fs -> glide_new fs = Some g0 -> glide_time_ok t ->
+  100 <= R32 t * R32 fs <= 12582 ->
+  fin hi -> bpow radix2 (-100) <= Rabs (R32 hi) <= bpow radix2 64 ->
+  R32 t * R32 fs <= INR n < R32 t * R32 fs + 1 ->
+  R32 t * R32 fs / 10 <= INR n10 < R32 t * R32 fs / 10 + 1 ->
+  exists ys ys10,
+    glide_outputs g0 (GSetTime t :: repeat (GProcess hi) (S n)) = Some ys /\
+    glide_outputs g0 (GSetTime t :: repeat (GProcess hi) (S n10)) = Some ys10 /\
+    length ys = S n /\ length ys10 = S n10 /\
+    0.995 <= R32 (last ys f_0) / R32 hi /\
+    0.40 <= R32 (last ys10 f_0) / R32 hi <= 0.55.
+Proof. exact end_to_end_percent. Qed.
 
 Print Assumptions C14_pole_accuracy.
 Print Assumptions C14_time_constant_real.
@@ -258,3 +410,11 @@ Print Assumptions C14_new_cached_marker.
 Print Assumptions C14_first_set_time_from_new.
 Print Assumptions C14_first_set_time_pole.
 Print Assumptions C14_first_glide_end_to_end.
+Print Assumptions C14_step_tracks_near_rest.
+Print Assumptions C14_trace_step_tracks.
+Print Assumptions C14_second_glide.
+Print Assumptions C14_speed_of_time.
+Print Assumptions C14_first_glide_end_to_end_sharp.
+Print Assumptions C14_any_glide_end_to_end.
+Print Assumptions C14_any_glide_percent.
+Print Assumptions C14_end_to_end_percent.
